@@ -2064,4 +2064,74 @@ theorem C02_lost_counted_removeVolume (s : State) (v : Nat) (force : Bool) (vol 
     simp [removeVolume, hv, h1, h2, h3]
     exact Or.inl hr
 
+/-- a removal without `force` never loses a sector: `lostSectors` is unchanged -/
+theorem C02_nonforced_removal_no_loss (s : State) (v : Nat) : (removeVolume s v false).1.m.lost = s.m.lost := by
+  simp only [removeVolume]
+  split
+  · rfl
+  rename_i vol hv
+  by_cases h : occ vol.slots > 0
+  · simp [h]
+  · have h0 : occ vol.slots = 0 := by omega
+    simp only [h0]
+    split
+    · rfl
+    split
+    · rfl
+    split
+    · rfl
+    · simp
+
+/-- … and so does `VolumeManager.RemoveVolume(force = false)` as a whole (migration included) -/
+theorem C02_vm_nonforced_removal_no_loss (s : State) (v : Nat) (moves : List Move) :
+    (vmRemove s v false moves).1.m.lost = s.m.lost := by
+  have hmig : ∀ (moves : List Move) (s : State) (c a b : Nat), (migrateGo s v 0 c a b moves).1.m.lost = s.m.lost := by
+    intro moves
+    induction moves with
+    | nil =>
+      intro s c a b
+      simp only [migrateGo]
+      split
+      · rfl
+      split
+      · rfl
+      split <;> rfl
+    | cons mv rest ih =>
+      intro s c a b
+      simp only [migrateGo]
+      split
+      · rfl
+      split
+      · rfl
+      rename_i i r _
+      split
+      · rfl
+      split
+      · rfl
+      have hm := moveOne_m s v i r mv
+      generalize moveOne s v i r mv = res at hm
+      obtain ⟨s', ok⟩ := res
+      simp only at hm ⊢
+      split
+      · rw [hm]
+      split
+      · split
+        · rw [hm]
+        · rw [ih, hm]
+      · rw [ih, hm]
+  simp only [vmRemove]
+  split
+  · rfl
+  have h2 : (migrate (setReadOnly s v true) v 0 moves).1.m.lost = s.m.lost := by
+    simp only [migrate]; rw [hmig]; rfl
+  generalize migrate (setReadOnly s v true) v 0 moves = res at h2
+  obtain ⟨s2, r⟩ := res
+  simp only at h2 ⊢
+  split
+  · split
+    · exact h2
+    · rw [C02_nonforced_removal_no_loss]; exact h2
+  · exact h2
+
+
 end Hostd.Props.C02
